@@ -6,7 +6,7 @@ From T4V Require Import Base.Scalar C02.Vec C02.Spec C02.Model C02.Proofs.
 Import ListNotations.
 Open Scope R_scope.
 
-Ltac card := unfold convert_card, to_surface_mcnp; cbn; consts.
+Ltac card := unfold convert_card, to_surface_mcnp; cbn; consts; cbn; consts.
 
 (* ---------- spheres (no guard: any radius) ---------- *)
 Lemma so_locus_sense r : locus_sense (convert_card RS M_SO [r]) (fM_so RS r).
@@ -263,3 +263,200 @@ Proof. intros Ht. cone_card Ht. finish_cone Ht. Qed.
 Lemma k_z_sheet0_locus_sense x0 y0 z0 t2 :
   0 <= t2 -> locus_sense (convert_card RS M_K_Z [x0; y0; z0; t2; 0]) (fM_k_z RS x0 y0 z0 t2).
 Proof. intros Ht. cone_card Ht. finish_cone Ht. Qed.
+
+(* ---------- X / Y / Z: point-defined axisymmetric surfaces ---------- *)
+Lemma Rabs_sq a : Rabs a * Rabs a = a * a.
+Proof. rewrite <- Rabs_mult. apply Rabs_right. nra. Qed.
+
+(* one pair, or equal abscissae: the plane *)
+Lemma x2_locus_sense x1 r : locus_sense (convert_card RS M_X [x1; r]) (fM_px RS x1).
+Proof. card. finish_locus 1. field. Qed.
+Lemma y2_locus_sense x1 r : locus_sense (convert_card RS M_Y [x1; r]) (fM_py RS x1).
+Proof. card. finish_locus 1. field. Qed.
+Lemma z2_locus_sense x1 r : locus_sense (convert_card RS M_Z [x1; r]) (fM_pz RS x1).
+Proof. card. finish_locus 1. field. Qed.
+Lemma x_plane_locus_sense x1 r1 r2 : locus_sense (convert_card RS M_X [x1; r1; x1; r2]) (fM_px RS x1).
+Proof. card. finish_locus 1. field. Qed.
+Lemma y_plane_locus_sense x1 r1 r2 : locus_sense (convert_card RS M_Y [x1; r1; x1; r2]) (fM_py RS x1).
+Proof. card. finish_locus 1. field. Qed.
+Lemma z_plane_locus_sense x1 r1 r2 : locus_sense (convert_card RS M_Z [x1; r1; x1; r2]) (fM_pz RS x1).
+Proof. card. finish_locus 1. field. Qed.
+
+(* equal radii: the cylinder *)
+Ltac xyz_cyl Hx :=
+  unfold convert_card, to_surface_mcnp; cbn;
+  rewrite (proj2 (Reqb_false _ _) Hx); consts; cbn; consts; finish_locus 1; ring.
+Lemma x_cyl_locus_sense x1 x2 r : x1 <> x2 -> locus_sense (convert_card RS M_X [x1; r; x2; r]) (fM_cx RS r).
+Proof. intros Hx. xyz_cyl Hx. Qed.
+Lemma y_cyl_locus_sense x1 x2 r : x1 <> x2 -> locus_sense (convert_card RS M_Y [x1; r; x2; r]) (fM_cy RS r).
+Proof. intros Hx. xyz_cyl Hx. Qed.
+Lemma z_cyl_locus_sense x1 x2 r : x1 <> x2 -> locus_sense (convert_card RS M_Z [x1; r; x2; r]) (fM_cz RS r).
+Proof. intros Hx. xyz_cyl Hx. Qed.
+
+(* otherwise the cone through the two circles, one sheet: the one that
+   contains both points (r1, r2 >= 0; a point may lie on the apex) *)
+Lemma x_cone_locus_sense x1 r1 x2 r2 :
+  x1 <> x2 -> r1 <> r2 -> 0 <= r1 -> 0 <= r2 ->
+  one_sheet (convert_card RS M_X [x1; r1; x2; r2])
+            (fM_kx RS (xyz_apex RS x1 r1 x2 r2) (xyz_t2 RS x1 r1 x2 r2))
+            (fun p => axial_x RS (xyz_apex RS x1 r1 x2 r2) p
+                      * ((x1 - xyz_apex RS x1 r1 x2 r2) + (x2 - xyz_apex RS x1 r1 x2 r2))).
+Proof.
+  intros Hx Hr H1 H2.
+  unfold convert_card, to_surface_mcnp. cbn -[tan_deg].
+  replace (Reqb x1 x2) with false by (symmetry; apply Reqb_false; exact Hx).
+  replace (Reqb r1 r2) with false by (symmetry; apply Reqb_false; exact Hr).
+  assert (Hd : x1 - x2 <> 0) by lra.
+  assert (Hs : (r2 - r1) / (x2 - x1) = (r1 - r2) / (x1 - x2)) by (field; lra).
+  rewrite Hs. set (t := (r1 - r2) / (x1 - x2)).
+  assert (Ht : t <> 0).
+  { unfold t. intros E. apply (Rmult_eq_compat_r (x1 - x2)) in E. unfold Rdiv in E.
+    rewrite Rmult_assoc, Rinv_l, Rmult_1_r, Rmult_0_l in E by exact Hd. lra. }
+  assert (Hsum : x1 - (x1 - r1 / t) + (x2 - (x1 - r1 / t)) = (r1 + r2) / t).
+  { unfold t. field. split; lra. }
+  assert (Hlt : 2 * (x1 - r1 / t) < x1 + x2 <-> 0 < (r1 + r2) / t).
+  { rewrite <- Hsum. split; intros; lra. }
+  clearbody t.
+  replace (Reqb t 0) with false by (symmetry; apply Reqb_false; exact Ht).
+  assert (Hpos : 0 < r1 + r2) by lra.
+  assert (Habs : 0 <= Rabs t * Rabs t) by (rewrite Rabs_sq; nra).
+  destruct (Rltb (2 * (x1 - r1 / t)) (x1 + x2)) eqn:En;
+    [apply Rltb_true in En; apply Hlt in En | apply Rltb_false in En].
+  - cbn -[tan_deg]. sheet_consts.
+    eapply (two_lits _ _ _ _ _ 1 (/ ((r1 + r2) / t)));
+    [ reflexivity | reflexivity | lra | apply Rinv_0_lt_compat; exact En
+    | intros [[x y] z]; cbn -[tan_deg]; rewrite tan_deg_atan; unfold ssq; cbn;
+      rewrite Rabs_sq; ring
+    | intros [[x y] z]; cbn; rewrite Hsum; field; split; [exact Ht | lra] ].
+  - assert (En' : (r1 + r2) / t < 0).
+    { destruct (Rle_lt_or_eq_dec ((r1 + r2) / t) 0) as [Hl|He]; [|exact Hl|].
+      - apply Rnot_lt_le. intros Hc. apply Hlt in Hc. lra.
+      - exfalso. apply (Rmult_eq_compat_r t) in He. unfold Rdiv in He.
+        rewrite Rmult_assoc, Rinv_l, Rmult_1_r, Rmult_0_l in He by exact Ht. lra. }
+    cbn -[tan_deg]. sheet_consts.
+    eapply (two_lits _ _ _ _ _ 1 (/ - ((r1 + r2) / t)));
+    [ reflexivity | reflexivity | lra | apply Rinv_0_lt_compat; lra
+    | intros [[x y] z]; cbn -[tan_deg]; rewrite tan_deg_atan; unfold ssq; cbn;
+      rewrite Rabs_sq; ring
+    | intros [[x y] z]; cbn; rewrite Hsum; field; split; [exact Ht | lra] ].
+Qed.
+
+Lemma y_cone_locus_sense x1 r1 x2 r2 :
+  x1 <> x2 -> r1 <> r2 -> 0 <= r1 -> 0 <= r2 ->
+  one_sheet (convert_card RS M_Y [x1; r1; x2; r2])
+            (fM_ky RS (xyz_apex RS x1 r1 x2 r2) (xyz_t2 RS x1 r1 x2 r2))
+            (fun p => axial_y RS (xyz_apex RS x1 r1 x2 r2) p
+                      * ((x1 - xyz_apex RS x1 r1 x2 r2) + (x2 - xyz_apex RS x1 r1 x2 r2))).
+Proof.
+  intros Hx Hr H1 H2.
+  unfold convert_card, to_surface_mcnp. cbn -[tan_deg].
+  replace (Reqb x1 x2) with false by (symmetry; apply Reqb_false; exact Hx).
+  replace (Reqb r1 r2) with false by (symmetry; apply Reqb_false; exact Hr).
+  assert (Hd : x1 - x2 <> 0) by lra.
+  assert (Hs : (r2 - r1) / (x2 - x1) = (r1 - r2) / (x1 - x2)) by (field; lra).
+  rewrite Hs. set (t := (r1 - r2) / (x1 - x2)).
+  assert (Ht : t <> 0).
+  { unfold t. intros E. apply (Rmult_eq_compat_r (x1 - x2)) in E. unfold Rdiv in E.
+    rewrite Rmult_assoc, Rinv_l, Rmult_1_r, Rmult_0_l in E by exact Hd. lra. }
+  assert (Hsum : x1 - (x1 - r1 / t) + (x2 - (x1 - r1 / t)) = (r1 + r2) / t).
+  { unfold t. field. split; lra. }
+  assert (Hlt : 2 * (x1 - r1 / t) < x1 + x2 <-> 0 < (r1 + r2) / t).
+  { rewrite <- Hsum. split; intros; lra. }
+  clearbody t.
+  replace (Reqb t 0) with false by (symmetry; apply Reqb_false; exact Ht).
+  assert (Hpos : 0 < r1 + r2) by lra.
+  assert (Habs : 0 <= Rabs t * Rabs t) by (rewrite Rabs_sq; nra).
+  destruct (Rltb (2 * (x1 - r1 / t)) (x1 + x2)) eqn:En;
+    [apply Rltb_true in En; apply Hlt in En | apply Rltb_false in En].
+  - cbn -[tan_deg]. sheet_consts.
+    eapply (two_lits _ _ _ _ _ 1 (/ ((r1 + r2) / t)));
+    [ reflexivity | reflexivity | lra | apply Rinv_0_lt_compat; exact En
+    | intros [[x y] z]; cbn -[tan_deg]; rewrite tan_deg_atan; unfold ssq; cbn;
+      rewrite Rabs_sq; ring
+    | intros [[x y] z]; cbn; rewrite Hsum; field; split; [exact Ht | lra] ].
+  - assert (En' : (r1 + r2) / t < 0).
+    { destruct (Rle_lt_or_eq_dec ((r1 + r2) / t) 0) as [Hl|He]; [|exact Hl|].
+      - apply Rnot_lt_le. intros Hc. apply Hlt in Hc. lra.
+      - exfalso. apply (Rmult_eq_compat_r t) in He. unfold Rdiv in He.
+        rewrite Rmult_assoc, Rinv_l, Rmult_1_r, Rmult_0_l in He by exact Ht. lra. }
+    cbn -[tan_deg]. sheet_consts.
+    eapply (two_lits _ _ _ _ _ 1 (/ - ((r1 + r2) / t)));
+    [ reflexivity | reflexivity | lra | apply Rinv_0_lt_compat; lra
+    | intros [[x y] z]; cbn -[tan_deg]; rewrite tan_deg_atan; unfold ssq; cbn;
+      rewrite Rabs_sq; ring
+    | intros [[x y] z]; cbn; rewrite Hsum; field; split; [exact Ht | lra] ].
+Qed.
+
+Lemma z_cone_locus_sense x1 r1 x2 r2 :
+  x1 <> x2 -> r1 <> r2 -> 0 <= r1 -> 0 <= r2 ->
+  one_sheet (convert_card RS M_Z [x1; r1; x2; r2])
+            (fM_kz RS (xyz_apex RS x1 r1 x2 r2) (xyz_t2 RS x1 r1 x2 r2))
+            (fun p => axial_z RS (xyz_apex RS x1 r1 x2 r2) p
+                      * ((x1 - xyz_apex RS x1 r1 x2 r2) + (x2 - xyz_apex RS x1 r1 x2 r2))).
+Proof.
+  intros Hx Hr H1 H2.
+  unfold convert_card, to_surface_mcnp. cbn -[tan_deg].
+  replace (Reqb x1 x2) with false by (symmetry; apply Reqb_false; exact Hx).
+  replace (Reqb r1 r2) with false by (symmetry; apply Reqb_false; exact Hr).
+  assert (Hd : x1 - x2 <> 0) by lra.
+  assert (Hs : (r2 - r1) / (x2 - x1) = (r1 - r2) / (x1 - x2)) by (field; lra).
+  rewrite Hs. set (t := (r1 - r2) / (x1 - x2)).
+  assert (Ht : t <> 0).
+  { unfold t. intros E. apply (Rmult_eq_compat_r (x1 - x2)) in E. unfold Rdiv in E.
+    rewrite Rmult_assoc, Rinv_l, Rmult_1_r, Rmult_0_l in E by exact Hd. lra. }
+  assert (Hsum : x1 - (x1 - r1 / t) + (x2 - (x1 - r1 / t)) = (r1 + r2) / t).
+  { unfold t. field. split; lra. }
+  assert (Hlt : 2 * (x1 - r1 / t) < x1 + x2 <-> 0 < (r1 + r2) / t).
+  { rewrite <- Hsum. split; intros; lra. }
+  clearbody t.
+  replace (Reqb t 0) with false by (symmetry; apply Reqb_false; exact Ht).
+  assert (Hpos : 0 < r1 + r2) by lra.
+  assert (Habs : 0 <= Rabs t * Rabs t) by (rewrite Rabs_sq; nra).
+  destruct (Rltb (2 * (x1 - r1 / t)) (x1 + x2)) eqn:En;
+    [apply Rltb_true in En; apply Hlt in En | apply Rltb_false in En].
+  - cbn -[tan_deg]. sheet_consts.
+    eapply (two_lits _ _ _ _ _ 1 (/ ((r1 + r2) / t)));
+    [ reflexivity | reflexivity | lra | apply Rinv_0_lt_compat; exact En
+    | intros [[x y] z]; cbn -[tan_deg]; rewrite tan_deg_atan; unfold ssq; cbn;
+      rewrite Rabs_sq; ring
+    | intros [[x y] z]; cbn; rewrite Hsum; field; split; [exact Ht | lra] ].
+  - assert (En' : (r1 + r2) / t < 0).
+    { destruct (Rle_lt_or_eq_dec ((r1 + r2) / t) 0) as [Hl|He]; [|exact Hl|].
+      - apply Rnot_lt_le. intros Hc. apply Hlt in Hc. lra.
+      - exfalso. apply (Rmult_eq_compat_r t) in He. unfold Rdiv in He.
+        rewrite Rmult_assoc, Rinv_l, Rmult_1_r, Rmult_0_l in He by exact Ht. lra. }
+    cbn -[tan_deg]. sheet_consts.
+    eapply (two_lits _ _ _ _ _ 1 (/ - ((r1 + r2) / t)));
+    [ reflexivity | reflexivity | lra | apply Rinv_0_lt_compat; lra
+    | intros [[x y] z]; cbn -[tan_deg]; rewrite tan_deg_atan; unfold ssq; cbn;
+      rewrite Rabs_sq; ring
+    | intros [[x y] z]; cbn; rewrite Hsum; field; split; [exact Ht | lra] ].
+Qed.
+
+(* Spec sanity: the two defining circles lie on the specified cone, on the
+   kept side of the apex (or on the apex) *)
+Lemma xyz_spec_contains_points x1 r1 x2 r2 :
+  x1 <> x2 -> r1 <> r2 -> 0 <= r1 -> 0 <= r2 ->
+  let a := xyz_apex RS x1 r1 x2 r2 in
+  let s := (x1 - a) + (x2 - a) in
+  fM_kx RS a (xyz_t2 RS x1 r1 x2 r2) (x1, r1, 0) = 0 /\
+  fM_kx RS a (xyz_t2 RS x1 r1 x2 r2) (x2, 0, r2) = 0 /\
+  0 <= (x1 - a) * s /\ 0 <= (x2 - a) * s /\ s <> 0.
+Proof.
+  intros Hx Hr H1 H2. cbn. unfold ssq. cbn.
+  assert (Hd : x2 - x1 <> 0) by lra. assert (Hn : r2 - r1 <> 0) by lra.
+  set (t := (r2 - r1) / (x2 - x1)).
+  assert (Ht : t <> 0).
+  { unfold t. intros E. apply (Rmult_eq_compat_r (x2 - x1)) in E. unfold Rdiv in E.
+    rewrite Rmult_assoc, Rinv_l, Rmult_1_r, Rmult_0_l in E by exact Hd. lra. }
+  assert (E1 : x1 - (x1 - r1 / t) = r1 / t) by ring.
+  assert (E2 : x2 - (x1 - r1 / t) = r2 / t) by (unfold t; field; split; lra).
+  rewrite E1, E2.
+  assert (Hq : forall a b, a / t * (b / t) = a * b / (t * t)) by (intros; field; exact Ht).
+  assert (Htt : 0 < / (t * t)) by (apply Rinv_0_lt_compat; nra).
+  split; [field; exact Ht|]. split; [field; exact Ht|].
+  replace (r1 / t + r2 / t) with ((r1 + r2) / t) by (field; exact Ht).
+  rewrite !Hq. unfold Rdiv. split; [|split]; try (apply Rmult_le_pos; [nra | lra]).
+  intros E. apply (Rmult_eq_compat_r t) in E.
+  rewrite Rmult_assoc, Rinv_l, Rmult_1_r, Rmult_0_l in E by exact Ht. lra.
+Qed.
